@@ -297,10 +297,13 @@ class Oracle:
         return c
 
 
-def explore(run_one, max_paths=4000):
+def explore(run_one, max_paths=4000, budget_s=None):
     """Depth-first exploration: run_one(oracle) executes one path."""
+    import time as _time
+
     stack = [[]]
     n = 0
+    t0 = _time.time()
     while stack:
         prefix = stack.pop()
         orc = Oracle(prefix)
@@ -308,6 +311,8 @@ def explore(run_one, max_paths=4000):
         n += 1
         if n > max_paths:
             raise EngineError("path explosion (> %d paths)" % max_paths)
+        if budget_s is not None and _time.time() - t0 > budget_s:
+            raise EngineError("path generation budget of %ds exhausted after %d paths" % (budget_s, n))
         for i in range(len(prefix), len(orc.trace)):
             chosen, options, _ = orc.trace[i]
             taken = [t[0] for t in orc.trace[:i]]
